@@ -16,7 +16,8 @@ import (
 )
 
 type c18Impl struct {
-	scope *slip.Scope
+	scope  *slip.Scope
+	healed int // how often a failed parse had damaged the shared parser (outside the recover family)
 }
 
 func newC18Impl() *c18Impl { return &c18Impl{scope: slip.NewScope()} }
@@ -41,6 +42,7 @@ func (m *c18Impl) makeBag(text string, via int) (*flavors.Instance, lib.Outcome)
 		o = m.eval("(bag-parse (make-instance 'bag-flavor) c18-text)", map[string]slip.Object{"c18-text": slip.String(text)})
 	}
 	if !o.Ok {
+		m.heal()
 		return nil, o
 	}
 	inst, ok := o.Value.(*flavors.Instance)
@@ -50,6 +52,31 @@ func (m *c18Impl) makeBag(text string, via int) (*flavors.Instance, lib.Outcome)
 		return nil, o
 	}
 	return inst, o
+}
+
+// healthy: a document with quoted strings in an array and in an object parses to what it says.
+func (m *c18Impl) healthy() bool {
+	o := m.eval(`(make-bag "[\"p q\" {\"k\": \"v w\"}]")`, nil)
+	if !o.Ok {
+		return false
+	}
+	a, ok := bagAny(o.Value)
+	return ok && canonAny(a) == canonAny([]any{"p q", map[string]any{"k": "v w"}})
+}
+
+// heal: after a parse that raised, later parses must not be affected. Where they are (a defect
+// the recover family reports with its own cells), the shared parser is brought back to its
+// initial state by parsing top-level strings, so that the defect does not spill into the checks
+// that follow. Returns whether the parser was found damaged.
+func (m *c18Impl) heal() bool {
+	if m.healthy() {
+		return false
+	}
+	for i := 0; i < 8 && !m.healthy(); i++ {
+		m.eval(`(make-bag "\"h\"")`, nil)
+	}
+	m.healed++
+	return true
 }
 
 func bagAny(o slip.Object) (any, bool) {
@@ -116,6 +143,39 @@ func (w c18WriteOpts) String() string {
 }
 
 // mode names the writer branch write.go takes for these options (signature part).
+// wire: the keyword list for the model's `json wopts` entry.
+func (w c18WriteOpts) wire() string {
+	var parts []string
+	tf := func(n int) string {
+		if n == 1 {
+			return "t"
+		}
+		return "n"
+	}
+	if w.pretty >= 0 {
+		parts = append(parts, ":pretty "+tf(w.pretty))
+	}
+	if w.depth >= 0 {
+		parts = append(parts, fmt.Sprintf(":depth x%d", w.depth))
+	}
+	if w.json >= 0 {
+		parts = append(parts, ":json "+tf(w.json))
+	}
+	if w.margin >= 0 {
+		parts = append(parts, fmt.Sprintf(":right-margin x%d", w.margin))
+	}
+	if w.color >= 0 {
+		parts = append(parts, ":color n")
+	}
+	if w.timeFormat != "" {
+		parts = append(parts, ":time-format s"+lib.Hex(w.timeFormat))
+	}
+	if w.timeWrap != "" {
+		parts = append(parts, ":time-wrap s"+lib.Hex(w.timeWrap))
+	}
+	return strings.Join(parts, " ")
+}
+
 func (w c18WriteOpts) mode() string {
 	pretty := w.pretty != 0 // *print-pretty* defaults to t
 	depth := 4
